@@ -29,7 +29,8 @@ extern "C" void harness(void)
 #endif
   M *m = new M;
 #line 200
-  auto e = NAMED_REQUIRE_CALL(*m, f(7));
+  unsigned effects = 0;
+  auto e = NAMED_REQUIRE_CALL(*m, f(7)).LR_SIDE_EFFECT(++effects);
 #line 300
   CM *cm = e.get();
   unsigned wname = vf_needle(cm->name);
@@ -58,6 +59,7 @@ extern "C" void harness(void)
   m->f(7);
   VCLAIM(4, vf_nreports == want && cm->sequences->get_calls() == c + 1, "C04.setup_handled_call_after_listing");
   VCLAIM(16, vf_nok == 1, "C16.accepted_call_after_a_no_match_listing_still_gets_its_ok_report");
+  VCLAIM(8, effects == 1, "C08.side_effects_run_for_an_accepted_call_after_an_earlier_no_match_listing");
   VCLAIM(1, vf_nreports == want && cm->sequences->get_calls() == c + 1, "C01.accepted_after_an_earlier_no_match_listing");
   e.reset();
   VCLAIM(4, vf_nreports == want, "C04.already_named_not_reported_again_after_handling_more_calls");
